@@ -557,3 +557,61 @@ def extract_corpus(which, leading_blank_lines):
             else:
                 out.append((mk, i, got))
     return out
+
+
+def pipeline_render_nonexpr(cfg, where):
+    """filter= on a def / block / <%text> and buffer_filters: only the listed filters apply (no default_filters, no page
+    expression_filter).  returns (rendered, expected)"""
+    import types
+    import string
+    import sys
+    from mako.template import Template
+    from mako import filters
+    tag = lambda name: (lambda s: "<%s:%s>" % (name, s))
+    ctx = {}
+    for c in string.ascii_lowercase:
+        if c not in "nhxu":
+            ctx[c] = tag(c)
+    ctx["ff"] = tag("ff")
+    ctx["gg"] = lambda k: tag("gg%d" % k)
+    ctx["ns"] = types.SimpleNamespace(ff=lambda a, b: tag("nsff%s%s" % (a, b)))
+    ctx["aa"], ctx["bb"] = 1, 2
+    value = " <v&'\xe9> "
+    table = {"x": filters.xml_escape, "h": filters.html_escape, "u": filters.url_escape, "trim": filters.trim,
+             "entity": filters.html_entities_escape, "unicode": str, "str": str, "decode.utf8": filters.decode.utf8}
+
+    def fn(name):
+        return table[name] if name in table else eval(name, {}, dict(ctx))
+
+    local, d, pg = cfg["local"], cfg["default_filters"], cfg["page_expression_filter"]
+    expected = value
+    for name in local:
+        if name != "n":
+            expected = fn(name)(expected)
+    expected = str(expected)
+    src = ""
+    if pg is not None:
+        src += '<%%page expression_filter="%s"/>' % ", ".join(pg).replace('"', "'")
+    flt = ", ".join(local)
+    kw = {}
+    if where == "def":
+        src += '<%%def name="dd()" filter="%s">%s</%%def><%% dd() %%>' % (flt, value)
+    elif where == "block":
+        src += '<%%block filter="%s">%s</%%block>' % (flt, value)
+    elif where == "text":
+        src += '<%%text filter="%s">%s</%%text>' % (flt, value)
+    else:
+        src += '<%%def name="dd()" buffered="True">%s</%%def><%% context.write(dd()) %%>' % value
+        kw["buffer_filters"] = list(local)
+    if d is not None:
+        kw["default_filters"] = list(d)
+    mod = types.ModuleType("c02_filters_mod")
+    mod.__dict__.update(ctx)
+    mod.__all__ = list(ctx)
+    sys.modules["c02_filters_mod"] = mod
+    kw["imports"] = ["from c02_filters_mod import " + ", ".join(mod.__all__)]
+    try:
+        got = Template(src, **kw).render_unicode()
+    except Exception as e:
+        got = "raised %s: %s" % (type(e).__name__, e)
+    return (got, expected)
